@@ -10,6 +10,18 @@ import (
 	"strings"
 )
 
+// crashInLastStep: a `restart` DIRECTLY after the removal step that finished the removal.  For model and
+// specification the step is one transaction, so this is a restart after a completed removal; the executor restarts
+// the wallet on the copy of its directory taken between two commits of that step if the step committed more than
+// once (eng_rem_fork.go) - the crash point that leaves a wallet without status but with its keystore when the last
+// step is not atomic (seeded/C08-5).  What follows in every history (residue scan with its specification column,
+// Wallets(), UseWallet, the survivors' observations, follower activity, re-import of the mnemonic) then speaks.
+func crashInLastStep(g *Gen, op func(class, f string, a ...interface{})) {
+	op("restart-in-last-removal-step", "restart")
+	op("inittasks", "inittasks")
+	op("tasks", "tasks")
+}
+
 // ---------------------------------------------------------------- C08
 
 func genRem(g *Gen) {
@@ -43,6 +55,7 @@ func (t *irGen) survivors(except string) []string {
 
 func genRemHistory(g *Gen, idx int) {
 	r := g.Rng
+	r2 := rand.New(rand.NewSource(g.Seed*611953 + int64(idx))) // crashInLastStep: the rest of the stream does not move
 	l := newLedGen(g, "rem")
 	t := &irGen{g: g, l: l}
 	l.start(2 + r.Intn(2))
@@ -143,6 +156,9 @@ func genRemHistory(g *Gen, idx int) {
 			}
 		}
 		t.op("remstep", "remstep")
+		if r2.Intn(2) == 0 {
+			crashInLastStep(g, t.op)
+		}
 		t.op("remstep-extra", "remstep")
 		t.live = t.survivors(w)
 		// ---- after the removal
@@ -243,6 +259,7 @@ func genRemBig(g *Gen) {
 		t.op("rembegin", "rembegin %s", w)
 	}
 	t.op("remstep-big", "remstep")
+	crashInLastStep(g, t.op)
 	t.op("remstep-extra", "remstep")
 	t.op("residue-after", "residue %s", w)
 	t.op("wallets", "wallets")
@@ -644,6 +661,9 @@ func genRemMixed(g *Gen) {
 	op("tasks", "tasks")
 	op("rembegin", "rembegin %s", A)
 	op("remstep", "remstep")
+	if rand.New(rand.NewSource(g.Seed*350377 + int64(g.N))).Intn(3) == 0 {
+		crashInLastStep(g, op)
+	}
 	op("remstep-extra", "remstep")
 	op("residue-after", "residue %s", A)
 	op("wallets", "wallets")
